@@ -124,7 +124,13 @@ func replay(h history) (o obs) {
 				o.Step, o.Err = n+1, "cancelled evaluation returned no error"
 				return
 			}
-			time.Sleep(3 * time.Millisecond)
+			// give the goroutine of the cancelled evaluation time to wind down (with an
+			// already-expired context it may still be compiling: finding F-C09-1)
+			if s.What == "expired" {
+				time.Sleep(40 * time.Millisecond)
+			} else {
+				time.Sleep(10 * time.Millisecond)
+			}
 			continue
 		}
 		var got int
@@ -154,8 +160,8 @@ func replay(h history) (o obs) {
 		}()
 		select {
 		case <-done:
-		case <-time.After(3 * time.Second):
-			o.Step, o.Err = n+1, "use did not return within 3s"
+		case <-time.After(30 * time.Second):
+			o.Step, o.Err = n+1, "use did not return within 30s"
 			return
 		}
 		if err != nil {
@@ -282,7 +288,7 @@ INVARIANTS UsesCountUp Emit
 		}
 		jobs = append(jobs, jobT{H: all[x:y]})
 	}
-	results := c.RunChildren("c10", jobs, 16, 60*time.Second, nil)
+	results := c.RunChildren("c10", jobs, 16, 600*time.Second, nil)
 	for ji, r := range results {
 		var os []obs
 		if r.Out != nil {
